@@ -78,3 +78,28 @@ C[DG + '_return_digested_sequences@unknown'] = dict(
     params=_RP, returns='List[Span]', pure=True, axioms=[],
     requires=[('not-a-return-type', "return_type != 'span' and return_type != 'annotation' and return_type != 'str' and return_type != 'str-span' and return_type != 'annotation-span'")],
     raises={'ValueError': 'True'}, ensures=[('never-returns', 'False')])
+
+# ---------------------------------------------------------------- the sequence generators (C07: "the four sequence generators"), span return type:
+# each returns EXACTLY the spans its builder defines for the whole sequence (builders: proved in contracts/spans.py, each span once)
+for _b in ('build_left_semi_spans', 'build_right_semi_spans', 'build_non_enzymatic_spans'):
+    _bc = dict(_sp.C['peptacular.spans:' + _b])
+    for _k in ('invariants', 'loop_heads', 'canary', 'exit_lemmas', 'ghost'):
+        _bc.pop(_k, None)
+    C['peptacular.spans:' + _b] = dict(_bc, trusted=True, pure=True, ensures=[], bounded_by='proved against its own contract in contracts/spans.py (C06)')
+C[DG + '_return_digested_sequences@spanbag'] = dict(
+    params=dict(annotation='Annotation', spans='Bag[Span]', return_type='str'), specialize=dict(return_type='span'), returns='Bag[Span]', pure=True,
+    axioms=[], ensures=[('the-spans-themselves', 'forall(lambda t=Span: count(result, t) == count(spans, t))')], raises={})
+_GEN = dict(sequence='Annotation', min_len='Optional[int]', max_len='Optional[int]', return_type='str')
+for _g, _b in (('get_left_semi_enzymatic_sequences', 'build_left_semi_spans'), ('get_right_semi_enzymatic_sequences', 'build_right_semi_spans'),
+               ('get_non_enzymatic_sequences', 'build_non_enzymatic_spans')):
+    C[DG + _g + '@spanbag'] = dict(
+        params=_GEN, specialize=dict(return_type='span'), returns='Bag[Span]', pure=True, axioms=[],
+        requires=[('min-len-positive', 'min_len is None or min_len >= 1')], raises={},
+        ensures=[('exactly-the-builder-spans-of-the-whole-sequence',
+                  'forall(lambda t=Span: count(result, t) == count(%s((0, len(sequence._sequence), 0), min_len, max_len), t))' % _b)])
+C[DG + 'get_semi_enzymatic_sequences@spanbag'] = dict(
+    params=_GEN, specialize=dict(return_type='span'), returns='Bag[Span]', pure=True, axioms=[],
+    requires=[('min-len-positive', 'min_len is None or min_len >= 1')], raises={},
+    ensures=[('left-then-right-semi-spans',
+              'forall(lambda t=Span: count(yields, t) == count(build_left_semi_spans((0, len(sequence._sequence), 0), min_len, max_len), t) + '
+              'count(build_right_semi_spans((0, len(sequence._sequence), 0), min_len, max_len), t))')])
